@@ -387,11 +387,14 @@ def c10(prop, tier):
     for c in (["bn254"] if tier == "quick" else CURVES):
         jobs.append(Job("groth16-options-" + c, "./backend/groth16/" + c, ["prelude_sym.go", "c10_opts_groth16.go"], {"PKGNAME": "groth16", "CURVE": c, "GROTHPKG": "github.com/consensys/gnark/backend/groth16/" + c}))
         jobs.append(Job("plonk-options-" + c, "./backend/plonk/" + c, ["prelude_sym.go", "c10_opts_plonk.go"], {"PKGNAME": "plonk", "CURVE": c, "PLONKPKG": "github.com/consensys/gnark/backend/plonk/" + c}))
+    for f in (["bn254"] if tier == "quick" else ["bn254", "tinyfield", "bls12-381"]):
+        jobs.append(Job("run-schedules-" + f, "./constraint/" + f, ["prelude_sym.go", "c10_run.go"],
+                        {"PKGNAME": "cs", "NBTASKCHOICES": "1" if tier == "quick" else "2", "PREEMPTS": "1" if tier == "quick" else "2"}))
     return run_property(prop, tier, jobs,
-                        title="C10: two solves sharing one compiled system execute the real Reset()/Solve() of the stateful lookup blueprint as atomic blocks under every interleaving (symbolic schedule) with symbolic witnesses; each must get its own table entries. Also: sequential re-use (Reset restores the initial state).",
+                        title="C10: two solves sharing one compiled system execute the real Reset()/Solve() of the stateful lookup blueprint as atomic blocks under every interleaving (symbolic schedule) with symbolic witnesses; each must get its own table entries. Also: sequential re-use (Reset restores the initial state). Solver run(): worker pool / task channel / error channel / WaitGroup under a cooperative goroutine scheduler, every interleaving at synchronisation operations within a preemption bound (1 quick, 2 thorough), 2 (thorough: 2..3) workers, two symbolic failing-instruction ids over 5 representative positions: run() returns on every schedule (no deadlock, no panic), fails iff an instruction failed with that instruction's error, otherwise processed every instruction once.",
                         design_ref="DESIGN.md §3 C10",
                         assumptions=["block-level atomicity of Reset() and Solve() (sub-block data races are the race detector's domain)", "abstract Solver with the contract checked in C06"],
-                        outside=["goroutine pipelines of the provers", "sync.Pool internals", "newSolver's GKR option handling"],
+                        outside=["goroutine pipelines of the provers", "sync.Pool internals", "newSolver's GKR option handling", "data races inside processInstruction (the scheduler switches at synchronisation operations only)", "more than 2 preemptions per schedule"],
                         finding_matcher=essa_matcher)
 
 
